@@ -262,6 +262,13 @@ example : assemble exWorld [exPkt] 1 40000 [] =
 /-- a flushed batch: three datagrams, one per socket, group address of the socket's family, the IPv6 ones with the socket's scope id -/
 example : (multicast exWorld [(5, [6])]).map (fun d => (d.sock, d.dest)) =
     [(10, ⟨.group4, 5353, none⟩), (11, ⟨.group6, 5353, some (0, 3)⟩), (12, ⟨.group6, 5353, some (0, 4)⟩)] := by decide
+/-- … each of them the same message: multicast format, no question, the batch's answer and its additional -/
+example : (multicast exWorld [(5, [6])]).map (·.packet) =
+    List.replicate 3 { flags := 0x8400, multicast := true, id := 0, questions := [], answers := [5], adds := [6] } := by decide
+/-- a QM question for an address record from port 5353 (single question, type A, never seen): multicast at once on all three sockets,
+nothing unicast — and no question section although the query had one -/
+example : (assemble exWorld [{ exPkt with q0type := 1 }] 1 5353 []).map (fun d => (d.sock, d.packet.multicast, d.packet.questions.length)) =
+    [(10, true, 0), (11, true, 0), (12, true, 0)] := by decide
 example : RKind.all.map (fun k => (k.ctorType, k.unique)) = [(12, false), (33, true), (16, true), (1, true), (28, true), (47, true), (12, false)] := by
   decide
 example : builtBy .srv { name := [[97]], rtype := 33, rclass := 1, unique := true, ttl := 120, created := 0, rdata := .srv 0 0 80 [[104]] } = true := by
